@@ -89,7 +89,7 @@ def most_recent__samples():
     return [(0, 1, 1, 1, 3, True, True, True, True, True), (0, 0, 0, 0, 3, True, True, True, True, True), (0, 1, 0, 1, 1, True, True, False, True, False)]
 
 
-def immut_history(sp, rig="M", L=3, first=None, ops=None, clock="tick"):
+def immut_history(sp, rig="M", L=3, first=None, second=None, ops=None, clock="tick"):
     with Env(sp, rig=rig, clock=clock, clock_kw={"sites": {"sm"}, "maxd": 1, "budget": L + 3}) as e:
         ops = ops or ["append", "delete", "replace", "expire", "delsnap", "gc", "failed_commit", "reused_txn"]
         h = H.History(sp, e, ops, checks=[H.check_state, H.check_immutable])
@@ -101,8 +101,13 @@ def immut_history(sp, rig="M", L=3, first=None, ops=None, clock="tick"):
         if first is not None:
             h.ops = [first]
             h.step(0)
+            k0 = 1
+            if second is not None:
+                h.ops = [second]
+                h.step(1)
+                k0 = 2
             h.ops = ops
-            for k in range(1, L):
+            for k in range(k0, L):
                 h.step(k)
         else:
             h.run(L)
@@ -128,12 +133,15 @@ def obligations(tier):
         obs.append(Ob("a.history.S.L2", "vf.props.c09:immut_history", {"rig": "S", "L": 2, "ops": ["delete", "replace", "gc", "delsnap"], "_must_reach": ["ran"]},
                       timeout=T, bounds="rig S, 2 operations from delete/replace/gc/delsnap", weight=4))
     else:
+        # sized from measured runs: below ONE first operation an L=3 sub-tree holds 4-10 k histories (10-20 min); L=4 is out of reach even
+        # when partitioned by its first two operations (> 9 k histories per pair in 20 min) and is stated as outside the bound
         for f in all_ops:
-            obs.append(Ob(f"a.history.L.{f}.L4", "vf.props.c09:immut_history", {"rig": "L", "L": 4, "first": f, "_sample_every": 50}, timeout=T * 3,
-                          bounds=f"rig L, append + 2-file append, then {f} + 3 solver-chosen operations", weight=9))
-            obs.append(Ob(f"a.history.S.{f}.L3", "vf.props.c09:immut_history", {"rig": "S", "L": 3, "first": f, "_sample_every": 50}, timeout=T * 2,
+            obs.append(Ob(f"a.history.L.{f}.L3", "vf.props.c09:immut_history", {"rig": "L", "L": 3, "first": f, "_sample_every": 100},
+                          timeout=1500, bounds=f"rig L, append + 2-file append, then {f} + 2 solver-chosen operations", weight=8, allow_inconclusive=True))
+            obs.append(Ob(f"a.history.S.{f}.L3", "vf.props.c09:immut_history", {"rig": "S", "L": 3, "first": f, "_sample_every": 50}, timeout=1500,
                           bounds=f"rig S, then {f} + 2 solver-chosen operations", weight=7))
-        obs.append(Ob("a.history.L.ties.L3", "vf.props.c09:immut_history",
-                      {"rig": "L", "L": 3, "ops": ["append", "expire", "delsnap", "delete", "replace"], "clock": "sym"}, timeout=T * 3,
-                      bounds="rig L, symbolic snapshot timestamps (ties), 3 operations", weight=9))
+        for f in ("append", "expire", "delsnap", "delete", "replace"):
+            obs.append(Ob(f"a.history.L.ties.{f}.L3", "vf.props.c09:immut_history",
+                          {"rig": "L", "L": 3, "first": f, "ops": ["append", "expire", "delsnap", "delete", "replace"], "clock": "sym"}, timeout=1500,
+                          bounds=f"rig L, symbolic snapshot timestamps (ties), {f} + 2 operations", weight=9, allow_inconclusive=True))
     return obs
